@@ -310,6 +310,33 @@ def r08_4(ctx):
     ctx.decide('R08.4', gu.qual, 'slice %s:%s' % (ku.get('ofs'), ku.get('end')), ok, wu, 'same slice bounds as in __init__')
     ok = ku.get('src') == 'self.parse_src(var)' and ("src = self.parse_src(var)" in src(gi.node))
     ctx.decide('R08.4', gu.qual, 'source expression from parse_src(var) in both', ok, wu)
+    # EVERY stored variable whose source is an updatable input is refreshed: the emitting loop runs over the variable sequence
+    # itself, not over a container keyed by the source (several variables -- c and grad(c) -- share one source)
+    lp = guards.in_loop(wu, gu.node)
+    if lp is None or not isinstance(lp, ast.For):
+        ctx.undecided('R08.4', gu.qual, 'update() refreshes every variable fed by an updatable input', wu, 'emitting loop not recognised')
+    else:
+        it = lp.iter
+        base = it
+        while isinstance(base, ast.Call) and isinstance(base.func, ast.Attribute) and base.func.attr in ('items', 'values', 'keys') and not base.args:
+            base = base.func.value
+        direct = 'linear_deps' in src(base) and not isinstance(base, ast.Name)
+        keyed = None
+        if isinstance(base, ast.Name):
+            defs = [s for s in own_nodes(gu.node) if isinstance(s, ast.Assign) and any(isinstance(x, ast.Name) and x.id == base.id for x in s.targets)]
+            for d in defs:
+                if isinstance(d.value, ast.DictComp):
+                    keyed = (d, src(d.value.key))
+                elif isinstance(d.value, ast.Call) and call_name(d.value) in ('dict', 'OrderedDict', 'collections.OrderedDict'):
+                    keyed = (d, 'dict(...)')
+        if direct:
+            ctx.met('R08.4', gu.qual, 'update() refreshes every variable fed by an updatable input', lp, 'loop over ' + src(it))
+        elif keyed is not None and 'var.name' not in keyed[1].replace('var.src.name', ''):
+            ctx.violated('R08.4', gu.qual, 'update() refreshes every variable fed by an updatable input', keyed[0],
+                         'the variables are first collected in a dict keyed by `%s`; two stored variables derived from the same input (its value and '
+                         'its gradient) collide on that key, so update() rewrites only one of their slices and the other keeps the old field' % keyed[1])
+        else:
+            ctx.undecided('R08.4', gu.qual, 'update() refreshes every variable fed by an updatable input', lp, 'loop over ' + src(it)[:60])
     t = src(gu.node)
     ok = "var, sz, ofs = self.global_info[var.name]" in t and 'assert var.scope == vform.Scope.FIELD and var.is_global' in t
     ctx.decide('R08.4', gu.qual, 'offsets from global_info; only global field variables are updatable', ok, gu.node)
